@@ -16,10 +16,16 @@ structure SaveOpts where
   watermark : Option Nat := none
   format : Str := sGz
   profile : Profile := .default
+  /-- the number of bytes `gpg --clearsign` makes of the top-level Manifest (header, dash-escapes and signature
+      included): what `f.buffer.tell()` reports for a signed Manifest and the watermark is compared with.
+      Read back from the real run, like `post`; `none` = not signed in this scenario. -/
+  signedSize : Option Nat := none
 deriving Repr
 
 inductive Write
-  | file (path : Str) (text : Str)      -- a Manifest written (uncompressed text; the suffix tells the codec)
+  /-- a Manifest written: its path, the dumped entries (uncompressed; the suffix tells the codec), and whether
+      that text is wrapped into an OpenPGP cleartext signature -/
+  | file (path : Str) (text : Str) (signed : Bool)
   | unlink (path : Str)
 deriving Repr, DecidableEq
 
@@ -49,18 +55,28 @@ def objForRefresh (w : World) (post : Str → Option FileMeta) (ss : SSt) (p : S
     | none => .error .abstain
   else objAt w p
 
+/-- the size `want_compressed_manifest` is asked about: what was written, i.e. the signed message for a signed Manifest -/
+def uncSizeFor (o : SaveOpts) (sg : Bool) (text : Str) : Nat :=
+  if sg then o.signedSize.getD (utf8Len text) else utf8Len text
+
+/-- `save_manifest`'s sign decision with `ManifestFile.dump`'s default: only the Manifest that currently is
+    the top-level one is ever signed - when signing is requested, or not disabled and it was loaded signed -/
+def signFor (s : St) (mp : Str) : Bool :=
+  if mp == s.top then s.signOpt.getD s.topSigned else false
+
 /-- the part of `saveOne` after the MANIFEST entries were refreshed: write, then maybe rename -/
 def writeStep (o : SaveOpts) (ss1 : SSt) (mp : Str) : SSt :=
   let es := ss1.st.entriesOf mp
   let es' := if o.sort then stableSort (fun a b => entryLt a.2 b.2) es else es
   let text := dumpEntries false (es'.map (·.2))
+  let sg := signFor ss1.st mp
   let ss2 : SSt := { ss1 with st := ss1.st.setIds mp (es'.map (·.1)), written := setAdd ss1.written mp,
-                              writes := ss1.writes ++ [.file mp text] }
+                              writes := ss1.writes ++ [.file mp text sg] }
   match o.watermark with
   | none => ss2
   | some wm =>
     let compr := compressedSuffix? mp
-    let want := wantCompressed o.profile mp (hasEbuildEntry es') (utf8Len text) wm
+    let want := wantCompressed o.profile mp (hasEbuildEntry es') (uncSizeFor o sg text) wm
     if compr.isSome == want then ss2
     else
       let newMp := if want then mp ++ 46 :: o.format else mp.take (mp.length - ((compr.getD []).length + 1))
@@ -69,7 +85,9 @@ def writeStep (o : SaveOpts) (ss1 : SSt) (mp : Str) : SSt :=
         top := if ss2.st.top == mp then newMp else ss2.st.top }
       { ss2 with st := st', renamed := ss2.renamed ++ [(mp, newMp)],
                  written := setAdd (ss2.written.filter (· != mp)) newMp,
-                 writes := ss2.writes ++ [.file newMp text, .unlink mp] }
+                 -- the renamed top-level Manifest is the top-level Manifest when it is written
+                 -- (repair of finding F23: the name was switched only after the write, which lost the signature)
+                 writes := ss2.writes ++ [.file newMp text (signFor st' newMp), .unlink mp] }
 
 /-- refresh one entry of the Manifest being saved, if it is a MANIFEST entry whose target was updated -/
 def refreshStep (w : World) (post : Str → Option FileMeta) (o : SaveOpts) (mp rel : Str) (acc : SSt) (ie : IEntry) :
@@ -103,6 +121,8 @@ def saveOne (w : World) (post : Str → Option FileMeta) (o : SaveOpts) (ss : SS
   | .error e => .error e
   | .ok ss1 =>
     if !(o.force || ss1.st.updated.contains mp) then .ok ss1
+    -- `clear_sign_file`: a failing gpg raises OpenPGPSigningFailure; nothing unsigned is written instead
+    else if signFor ss1.st mp && !ss1.st.keyUsable then .error .signing
     else .ok (writeStep o ss1 mp)
 
 /-- the order in which `save_manifests` visits the loaded Manifests: deepest directory first;
